@@ -346,6 +346,14 @@ def analyse_case(ex, term, g, rg, track, bits, func, conds=(), exact_conditions=
     # precision of the arithmetic that reduces the argument (fdlibm's scalar path works in double also for float)
     p = (53 if T.width(ex.atoms[K]) == 64 else 24) if K is not None else (24 if bits == 32 else 53)
     if rg.hi is None:
+        if K is not None:
+            # a loop-free path that reduces with k = nearbyint(c |x|) and the finite constants lam, entered without any
+            # upper bound on the lane's |x|: the reduced argument is off by k |lam - pi/2|, k up to c * MAX -- a verdict,
+            # not a template mismatch (seeded change C13-7: all(x <= mediumpi) turned into any(x <= mediumpi))
+            lam_err = (Q.QI(lam_code) - Q.pi() * Fr(1, 2)).mag()
+            return {'verdict': 'bad', 'ulp': float('inf'), 'u_range': 'unbounded',
+                    'why': 'the conditions of this control path put NO upper bound on |x| of the lane (a whole-batch test that other lanes can satisfy on its behalf), '
+                           'yet the argument is reduced with k = nearbyint(%.6g |x|) and finite constants, |lam - pi/2| = %.3g: the reduced argument is off by k times that, without bound' % (float(c), float(lam_err))}
         raise Mismatch('the path does not bound |x|')
     pio2 = Q.pi() * Fr(1, 2)
     if K is not None:
